@@ -1,6 +1,6 @@
 (* scalar instance: native binary64 and libm, exactly what the C++ uses *)
 let fops : float sops = { s0 = 0.0; s1 = 1.0; s2 = 2.0; sadd = ( +. ); ssub = ( -. ); smul = ( *. ); sdiv = ( /. );
-  sneg = (fun x -> -. x); ssqrt = sqrt; scos = cos; ssin = sin; sltb = (fun a b -> a < b) }
+  sneg = (fun x -> -. x); ssqrt = sqrt; scos = cos; ssin = sin; sltb = (fun a b -> a < b); sis0 = (fun a -> a = 0.0) }
 let rec nat_of_int n = if n <= 0 then O else S (nat_of_int (n - 1))
 let rec int_of_nat = function O -> 0 | S n -> 1 + int_of_nat n
 let fmt (t : float) : char list = chars_of_string (Printf.sprintf "%f" t)
@@ -74,7 +74,7 @@ let () =
       Buffer.add_string b " | last ";
       Buffer.add_string b (String.concat "," (List.map (function None -> "-1" | Some true -> "1" | Some false -> "0") e.elast));
       Buffer.add_string b " | env ";
-      Buffer.add_string b (String.concat ";" (List.map (fun is -> String.concat "," (List.map (fun i -> string_of_int (int_of_nat i)) is)) e.eenv));
+      Buffer.add_string b (String.concat ";" (List.map (function None -> "x" | Some is -> String.concat "," (List.map (fun i -> string_of_int (int_of_nat i)) is)) e.eenv));
       Buffer.add_string b " | trace ";
       Buffer.add_string b (String.concat ";" (List.map (function
         | ROk bits -> "ok:" ^ String.concat "" (List.map (fun x -> if x then "1" else "0") bits)
